@@ -102,6 +102,39 @@ def build_shim():
     return out
 
 
+def build_tool(pkg):
+    """Builds a harness-only binary of the sim workspace (no rcgen inside): clisim."""
+    os.makedirs(BIN, exist_ok=True)
+    tdir = os.path.join(TARGET, "on")
+    out = os.path.join(BIN, pkg)
+    with BuildLock("build-on"):
+        p = subprocess.run(["cargo", "build", "--release", "--offline", "-p", pkg, "--target-dir", tdir], cwd=SIM, env=cargo_env(True),
+                           stdout=subprocess.PIPE, stderr=subprocess.STDOUT, text=True)
+        if p.returncode != 0:
+            raise HarnessError("build of %s failed:\n%s" % (pkg, p.stdout[-6000:]))
+        shutil.copy2(os.path.join(tdir, "release", pkg), out + ".tmp")
+        os.replace(out + ".tmp", out)
+    return out
+
+
+def build_cli(backend):
+    """Builds the real rustls-cert-gen binary from /repo's working tree for one back end
+    (guard off: the shipped behaviour). Returns (path or None, build log tail)."""
+    os.makedirs(BIN, exist_ok=True)
+    tdir = os.path.join(TARGET, "cli-" + backend)
+    out = os.path.join(BIN, "rustls-cert-gen-" + backend)
+    cmd = ["cargo", "build", "--release", "--offline", "-p", "rustls-cert-gen", "--target-dir", tdir]
+    if backend != "ring":
+        cmd += ["--no-default-features", "--features", backend]
+    with BuildLock("build-cli-" + backend):
+        p = subprocess.run(cmd, cwd=REPO, env=cargo_env(False), stdout=subprocess.PIPE, stderr=subprocess.STDOUT, text=True)
+        if p.returncode != 0:
+            return None, p.stdout[-4000:]
+        shutil.copy2(os.path.join(tdir, "release", "rustls-cert-gen"), out + ".tmp")
+        os.replace(out + ".tmp", out)
+    return out, ""
+
+
 class Batch:
     """Merged result of one fan-out of seeded runs."""
 
@@ -360,14 +393,16 @@ def run_plan(prop, plan, tier, vseed):
     results = []
     unlisted = 0
     for item in plan:
-        binary = build_simnode(item["features"], hook=True)
-        env = None
+        binary = item.get("binary") or build_simnode(item["features"], hook=True)
+        env = dict(item.get("env") or {}) or None
         if item.get("shim"):
             env = {"LD_PRELOAD": build_shim(), "DETSYS_RAND_SEED": str(vseed)}
         b = run_batch(binary, item["engine"], item["mode"], tier, item["runs"], vseed, env_extra=env)
         results.append((item, b))
         if b.violations:
             desc = {"features": item["features"], "hook": True, "shim": bool(item.get("shim"))}
+            if item.get("backend"):
+                desc["cli_backend"] = item["backend"]
             u, _k = handle_violations(prop, binary, desc, item["engine"], item["mode"], b, vseed, env_extra=env)
             unlisted += u
     return results, unlisted
@@ -628,7 +663,81 @@ def check_miri(prop, tier, vseed):
     return {"status": "not built yet", "schedules": 0}, 0
 
 
-CHECKS = {"C20": check_c20, "C01": check_c01, "C15": check_c15}
+def cli_env(backend, cli_bin):
+    scratch = os.path.join(WORK, "cli")
+    os.makedirs(scratch, exist_ok=True)
+    return {"CLISIM_BIN": cli_bin, "CLISIM_SHIM": build_shim(), "CLISIM_SCRATCH": scratch, "CLISIM_BACKEND": backend}
+
+
+def check_c18(tier):
+    t0 = time.time()
+    vseed = seed()
+    q = tier == "quick"
+    clisim = build_tool("clisim")
+    plan = []
+    build_failures = []
+    for backend, scale in (("ring", 1.0), ("aws_lc_rs", 0.4)):
+        cli, err = build_cli(backend)
+        if cli is None:
+            build_failures.append((backend, err))
+            continue
+        env = cli_env(backend, cli)
+        for mode, n in (("mixed", 960 if q else 24000), ("faults", 640 if q else 16000), ("enum", 96 if q else 1600)):
+            plan.append({"label": "%s/%s" % (backend, mode), "features": ["clisim"], "engine": "cli-sim", "mode": mode,
+                         "runs": max(16, int(n * scale)), "binary": clisim, "env": env, "backend": backend})
+    if build_failures:
+        raise HarnessError("the CLI does not build for %s:\n%s" % (build_failures[0][0], build_failures[0][1]))
+    results, unlisted = run_plan("C18", plan, tier, vseed)
+    evaluations = sum(len(b.runs) for _, b in results)
+    dn = sum(b.distinct_nontrivial() for _, b in results)
+    samples = []
+    for item, b in results:
+        if b.samples and len(samples) < 3:
+            samples.append({"batch": item["label"], "trace": b.samples[0]})
+    faults = {}
+    for _, b in results:
+        for k, v in b.counters.items():
+            if k.startswith("fault_"):
+                faults[k[6:]] = faults.get(k[6:], 0) + v
+    coverage = {
+        "evaluations": evaluations,
+        "distinct_nontrivial": dn,
+        "rule": "one evaluation = one seeded directory history (pre-state + 1-3 invocations of the real binary, one of them possibly "
+                "under a system-call or file-level fault); in enum batches additionally one re-execution per (system call of the last "
+                "invocation's fault-free run x errno). non-trivial = more than one invocation, or an invalid option set, or >= 2 names, "
+                "or a fault; distinct = distinct explicit-trace hashes among those",
+        "samples": samples,
+        "batches": [batch_cov(i["label"], b) for i, b in results],
+        "invocations_of_the_binary": sum_counter(results, "invocations"),
+        "valid_outputs_fully_checked": sum_counter(results, "valid_outputs_fully_checked"),
+        "invalid_option_invocations": sum_counter(results, "invalid_option_invocations"),
+        "openssl_chain_verified": sum_counter(results, "openssl_chain_verified"),
+        "webpki_chain_verified": sum_counter(results, "webpki_chain_verified"),
+        "fault_kinds_fired": dict(sorted(faults.items())),
+        "faults_fired_total": sum_counter(results, "faults_fired"),
+        "faults_armed_but_never_reached": sum_counter(results, "faults_armed_not_reached"),
+        "enumerated_fault_points": sum_counter(results, "enum_fault_points"),
+        "faulted_invocations_exit0_then_fully_checked": sum_counter(results, "faulted_invocations_exit0"),
+        "faulted_invocations_failed": sum_counter(results, "faulted_invocations_failed_cleanly"),
+        "same_seed_twice_byte_identical(ring)": sum_counter(results, "determinism_pairs"),
+        "simulated_time": "the tool reads no clock; logical steps = invocations",
+        "real_components": ["rustls-cert-gen binary (ring and aws_lc_rs builds) with all of rcgen inside", "the kernel file system in a per-run scratch directory"],
+        "simulated_components": ["getrandom (seeded stream, fail points)", "write/open/mkdir failures and short counts (detsys.so)",
+                                 "target files pre-created as directory or symlink to /dev/full"],
+        "exhaustive": False,
+        "exhaustive_note": "per sampled scenario of an enum batch every getrandom/write/open/mkdir call of the fault-free run is failed with every listed errno",
+    }
+    assumptions = [
+        "OpenSSL 3.0 and webpki (ring provider) are the independent chain validators; webpki is skipped for P-521",
+        "the harness TLV reader decides extension contents (names, usages, basic constraints)",
+        "under any fault only 'exit 0 implies four valid files' is judged",
+        "aws-lc-rs randomness is not seamed (keys stay random there); no oracle reads key bits",
+    ]
+    write_evidence("C18", tier, "exploration", coverage, assumptions, time.time() - t0, unlisted)
+    return 1 if unlisted else 0
+
+
+CHECKS = {"C20": check_c20, "C01": check_c01, "C15": check_c15, "C18": check_c18}
 
 
 def replay(path):
@@ -637,8 +746,15 @@ def replay(path):
     if r.get("kind") == "replica-divergence":
         return replay_replica(path)
     b = r["build"]
-    binary = build_simnode(b["features"], hook=b.get("hook", True))
     env = dict(os.environ)
+    if r["engine"] == "cli-sim":
+        binary = build_tool("clisim")
+        cli, err = build_cli(b.get("cli_backend", "ring"))
+        if cli is None:
+            raise HarnessError("CLI build failed: " + err)
+        env.update(cli_env(b.get("cli_backend", "ring"), cli))
+    else:
+        binary = build_simnode(b["features"], hook=b.get("hook", True))
     if b.get("shim"):
         env.update({"LD_PRELOAD": build_shim(), "DETSYS_RAND_SEED": str(r.get("verif_seed", DEFAULT_SEED))})
     p = subprocess.run([binary, r["engine"], "exec", "--trace", path, "-v"], stdout=subprocess.PIPE, stderr=subprocess.PIPE, text=True, env=env)
